@@ -27,6 +27,9 @@ def demo : World := run init [.newModel [3, 1, 4], .create 1 2, .create 1 0, .cr
 
 example : view demo 5 = some ([(3, 2, 0, 1), (2, 1, 2, 1)], [3, 1, 4]) := by decide
 
+/-- the world after copying the demo set -/
+def demoCopy : World := match copySet demo 5 with | some p => p.1 | none => demo
+
 /-- what the copy of set `t` shows (`k = false`: the code before S24) -/
 def copyView (w : World) (t : Nat) (k : Bool) : Option (List (Nat × Nat × Int × Nat) × List Nat) :=
   match copySet w t k with
@@ -40,6 +43,25 @@ example : copyView demo 5 true = some ([(9, 2, 0, 7), (8, 1, 2, 7)], [3, 1, 4]) 
 theorem C19_agentset_copy_without_owners_loses_members :
     view demo 5 = some ([(3, 2, 0, 1), (2, 1, 2, 1)], [3, 1, 4]) ∧ copyView demo 5 false = some ([], [3, 1, 4]) :=
   ⟨by decide, by decide⟩
+
+/-- **The copied model.**  Every model of an (alive) member is reconstructed: it is alive, its registry `list(model.agents)` is
+    the original registry shifted to the new objects — every registered agent, member of the set or not, in registration
+    order — and the sharing of generators is preserved (a set that uses its members' model's generator does so in the copy). -/
+theorem C19_agentset_copy_registry (w : World) (t : Nat) (r : SetRec) (hr : w.sets t = some r) (a : Nat)
+    (ha : a ∈ aliveMembers w r) (w' : World) (t' : Nat) (hc : copySet w t = some (w', t')) :
+    ∃ ar mr, w.agents a = some ar ∧ w.models ar.model = some mr ∧
+      regView w ar.model = some mr.reg ∧
+      regView w' (ar.model + w.next) = some (mr.reg.map (· + w.next)) ∧
+      (r.gen = mr.gen → ∃ r' mr', w'.sets t' = some r' ∧ w'.models (ar.model + w.next) = some mr' ∧ r'.gen = mr'.gen) := by
+  obtain ⟨ar, mr, har, hmr, halive, hm⟩ := member_model ha
+  simp only [copySet, hr, Option.some.injEq, Prod.mk.injEq] at hc
+  obtain ⟨rfl, rfl⟩ := hc
+  obtain ⟨h1, h2⟩ := copy_registry t hm hmr
+  refine ⟨ar, mr, har, hmr, by simp [regView, halive, hmr], h1, ?_⟩
+  intro hg
+  exact ⟨_, _, copyWorld_sets_new t r true, h2, by simp [hg]⟩
+
+example : regView demoCopy 7 = some [8, 9, 10] ∧ regView demo 1 = some [2, 3, 4] := ⟨by decide, by decide⟩
 
 /-- **Frame.**  A history none of whose operations writes an object the set depends on (the set, its generator, its members,
     their models) leaves what the set shows unchanged — whatever else it creates, removes, reorders or copies. -/
@@ -88,9 +110,6 @@ theorem C19_agentset_copy_detached (w : World) (hw : WF w) (t : Nat) (w' : World
       exact frame_run hw' hr' ops (hwo.mono (fun x hx hmem => by
         have := copy_deps_fresh t hc x hmem
         omega))
-
-/-- the world after copying the demo set -/
-def demoCopy : World := match copySet demo 5 with | some p => p.1 | none => demo
 
 /-- the two premises of `C19_agentset_copy_detached` are satisfiable by real work on either side: shuffling the copy and
     removing one of its members writes fresh objects only; changing an attribute of an original member, creating an agent in
